@@ -9,12 +9,16 @@ Steps (all in the scratch worktree, never in /repo):
   3. the demonstration (ffuzzy/tests/<name>.rs) must FAIL with the change
   4. revert the change; the demonstration must PASS without it
 Writes patch.diff, demo.rs, notes.md (the author's) and meta.json into the destination.
+
+With DEMO_MODE=example in the environment the demonstration is a program
+(ffuzzy/examples/<name>.rs) that must exit 1 printing "PROPERTY BROKEN" with
+the change and exit 0 without it (round 4 of the seeded changes).
 """
 import json, os, re, shutil, subprocess, sys, time
 
 
 def sh(cmd, cwd, env=None, timeout=3600):
-    p = subprocess.run(cmd, cwd=cwd, env=env, shell=True, stdout=subprocess.PIPE, stderr=subprocess.STDOUT, text=True, timeout=timeout)
+    p = subprocess.run(cmd, cwd=cwd, env=env, shell=True, executable="/bin/bash", stdout=subprocess.PIPE, stderr=subprocess.STDOUT, text=True, timeout=timeout)
     return p.returncode, p.stdout
 
 
@@ -25,7 +29,8 @@ def main():
     env["CARGO_TARGET_DIR"] = os.path.join(wt, "target")
     env["CARGO_NET_OFFLINE"] = "true"
     name = "seeded_demo"
-    demo_dst = os.path.join(wt, "ffuzzy", "tests", name + ".rs")
+    example = os.environ.get("DEMO_MODE") == "example"
+    demo_dst = os.path.join(wt, "ffuzzy", "examples" if example else "tests", name + ".rs")
     rc, out = sh("git status --porcelain", wt)
     if out.strip():
         sh("git checkout -- . && git clean -fdq ffuzzy/tests", wt)
@@ -45,16 +50,27 @@ def main():
         ok = ok and suite_ok
         os.makedirs(os.path.dirname(demo_dst), exist_ok=True)
         shutil.copy(os.path.join(src, "demo.rs"), demo_dst)
-        rc, out = sh(f"cargo test --offline -p ffuzzy --test {name} {demo_args} 2>&1 | tail -40", wt, env)
-        m = re.findall(r"test result: (\w+)\. (\d+) passed; (\d+) failed", out)
-        demo_fails = bool(m) and any(int(x[2]) > 0 for x in m) or ("panicked" in out and "test result: FAILED" in out) or ("SIGSEGV" in out or "signal" in out)
-        meta["steps"].append({"step": f"demo with the change (cargo test --offline -p ffuzzy --test {name} {demo_args})", "result": m, "fails_as_required": demo_fails, "tail": out[-600:]})
+        if example:
+            rc, out = sh(f"cargo run --offline -q -p ffuzzy --example {name} {demo_args} 2>&1 | tail -40; exit ${{PIPESTATUS[0]}}", wt, env)
+            m = [["exit", str(rc)]]
+            demo_fails = rc != 0 and "PROPERTY BROKEN" in out
+            meta["steps"].append({"step": f"demo with the change (cargo run --offline -p ffuzzy --example {name} {demo_args})", "result": m, "fails_as_required": demo_fails, "tail": out[-600:]})
+        else:
+            rc, out = sh(f"cargo test --offline -p ffuzzy --test {name} {demo_args} 2>&1 | tail -40", wt, env)
+            m = re.findall(r"test result: (\w+)\. (\d+) passed; (\d+) failed", out)
+            demo_fails = bool(m) and any(int(x[2]) > 0 for x in m) or ("panicked" in out and "test result: FAILED" in out) or ("SIGSEGV" in out or "signal" in out)
+            meta["steps"].append({"step": f"demo with the change (cargo test --offline -p ffuzzy --test {name} {demo_args})", "result": m, "fails_as_required": demo_fails, "tail": out[-600:]})
         ok = ok and demo_fails
     sh("git checkout -- .", wt)
     if os.path.exists(demo_dst):
-        rc, out = sh(f"cargo test --offline -p ffuzzy --test {name} {demo_args} 2>&1 | tail -15", wt, env)
-        m = re.findall(r"test result: (\w+)\. (\d+) passed; (\d+) failed", out)
-        demo_passes = bool(m) and all(int(x[2]) == 0 for x in m) and all(x[0] == "ok" for x in m)
+        if example:
+            rc, out = sh(f"cargo run --offline -q -p ffuzzy --example {name} {demo_args} 2>&1 | tail -15; exit ${{PIPESTATUS[0]}}", wt, env)
+            m = [["exit", str(rc)]]
+            demo_passes = rc == 0 and "property holds" in out
+        else:
+            rc, out = sh(f"cargo test --offline -p ffuzzy --test {name} {demo_args} 2>&1 | tail -15", wt, env)
+            m = re.findall(r"test result: (\w+)\. (\d+) passed; (\d+) failed", out)
+            demo_passes = bool(m) and all(int(x[2]) == 0 for x in m) and all(x[0] == "ok" for x in m)
         meta["steps"].append({"step": "demo without the change", "result": m, "passes_as_required": demo_passes})
         ok = ok and demo_passes
         os.remove(demo_dst)
